@@ -251,7 +251,10 @@ def final_operation_cases():
         out = []
         snap = frame.snapshot()
         specs = [({"o": ["x"]}, {"o.x"}), ({"o": ["y"]}, {"o.y"}), ({"o": {"x": None, "p": ["q"]}}, {"o.x", "o.p.q"}), (["o.x"], {"o.x"}), (["o.z"], {"o.z"}),
-                 ({"o": ["x"], "t": ["k"]}, {"o.x", "t.k"}), ({"t": ["raw"]}, {"t.raw"}), ([], set()), (("o.x", "o.y"), {"o.x", "o.y"})]
+                 ({"o": ["x"], "t": ["k"]}, {"o.x", "t.k"}), ({"t": ["raw"]}, {"t.raw"}), ([], set()), (("o.x", "o.y"), {"o.x", "o.y"}),
+                 # any iterable of names is a list of leaves: sets, frozensets, dict views, generators
+                 ({"o": {"x", "y"}}, {"o.x", "o.y"}), ({"o": frozenset(["x"]), "t": {"k": None}.keys()}, {"o.x", "t.k"}),
+                 ({"e": {"name": None, "address": {"city", "zip"}}}, {"e.name", "e.address.city", "e.address.zip"}), ({"o.x"}, {"o.x"})]
         for rnd in (1, 2):
             for spec, want in specs:
                 out.append(("C07-S/normalize_object_fields_specs/is-a-function-of-the-spec", set(U.normalize_object_fields_specs(spec)) == want))
